@@ -40,19 +40,102 @@ def _degenerate_fact(cond, val):
     return val is False and x_op in ("Ne", "Gt", "Ge")
 
 
-def degenerate_edges(fn, sym, prog=None):
+def _degenerate_deep(prog, cond, val, depth=0):
+    """_degenerate_fact, also when it is stated through a crate-local predicate: every path on
+    which the predicate returns that value has such a fact"""
+    if _degenerate_fact(cond, val):
+        return True
+    if prog is not None and depth < 3 and cond[0] in ("call", "callat") and isinstance(val, bool):
+        from ..sym import call_alternatives
+        alts = call_alternatives(prog, cond, val)
+        if alts and all(any(_degenerate_deep(prog, c_, v_, depth + 1) for c_, v_ in alt)
+                        for alt in alts):
+            return True
+    return False
+
+
+def _tested_outcome(cond, val):
+    """(call expression, outcome) when the branch fact tests the Ok/Err/Some/None outcome of a
+    call result: discr(call), discr(branch(call)), discr((branch(call) as Continue).0),
+    discr((call as Ok).0)"""
+    if cond[0] != "discr" or isinstance(val, bool):
+        return None
+    x = cond[1]
+    while isinstance(x, tuple) and x and x[0] in ("ref", "deref"):
+        x = x[1]
+    payload = False
+    if x[0] == "field" and x[2] in ("0", 0) and isinstance(x[1], tuple) and x[1][0] == "variant" \
+            and x[1][2] in ("Continue", "Ok"):
+        payload = True
+        x = x[1][1]
+    tried = False
+    if isinstance(x, tuple) and x and x[0] == "callat" and x[2] == "branch" and x[3]:
+        tried = True
+        x = x[3][0]
+    if not (isinstance(x, tuple) and x and x[0] in ("call", "callat")):
+        return None
+
+    def pick(zero, one):
+        if val == 0 or (isinstance(val, tuple) and val[0] == "not" and 1 in val[1] and 0 not in val[1]):
+            return zero
+        if val == 1 or (isinstance(val, tuple) and val[0] == "not" and 0 in val[1] and 1 not in val[1]):
+            return one
+        return None
+    if payload:
+        o = pick("Ok(None)", "Ok(Some)")            # Option: None = 0, Some = 1
+    elif tried:
+        o = pick("Ok", "Err")                       # ControlFlow: Continue = 0, Break = 1
+    else:
+        o = None        # the type decides (Result: Ok = 0; Option: None = 0): see the caller
+    return (x, o, val)
+
+
+def degenerate_edges(fn, sym, prog=None, opaque=None):
     """edges (src,dst) taken exactly when some size expression is zero / non-positive (directly,
-    or because a crate-local predicate returned a value it only returns in that case)"""
+    or because a crate-local predicate returned a value -- or a crate-local Option / Result
+    helper had an outcome -- it only has in that case). Edges that test the result of a
+    crate-local helper which cannot be analysed are collected in `opaque`."""
     out = set()
     for (p, s, cond, val) in sym.edge_facts():
         if _degenerate_fact(cond, val):
             out.add((p, s))
             continue
-        if prog is not None and cond[0] in ("call", "callat") and isinstance(val, bool):
+        if prog is None:
+            continue
+        from ..sym import call_alternatives
+        if cond[0] in ("call", "callat") and isinstance(val, bool):
             from .validators import alternatives_when
             alts = alternatives_when(prog, cond, val)
-            if alts and all(any(_degenerate_fact(c_, v_) for c_, v_ in alt) for alt in alts):
+            if alts and all(any(_degenerate_deep(prog, c_, v_, 1) for c_, v_ in alt) for alt in alts):
                 out.add((p, s))
+            continue
+        t_ = _tested_outcome(cond, val)
+        if t_ is None:
+            continue
+        call_, outcome, v_ = t_
+        res_ = call_[4] if call_[0] == "callat" else call_[3]
+        g_ = prog.fns.get(res_) if isinstance(res_, str) else None
+        if g_ is None:
+            continue
+        oty = g_.d.get("output") or ""
+        if outcome is None:
+            first, second = ("Ok", "Err") if oty.startswith("std::result::Result<") or "Result<" in oty.split("Option<")[0] \
+                else ("None", "Some")
+            if v_ == 0:
+                outcome = first
+            elif v_ == 1:
+                outcome = second
+            else:
+                continue
+        if outcome in ("Ok", "Ok(Some)", "Some"):
+            continue            # the success outcome is not a degenerate exit
+        alts = call_alternatives(prog, call_, outcome, "outcome")
+        if alts is None:
+            if opaque is not None:
+                opaque.add((p, s))
+            continue
+        if alts and all(any(_degenerate_deep(prog, c_, v2) for c_, v2 in alt) for alt in alts):
+            out.add((p, s))
     return out
 
 
@@ -261,7 +344,8 @@ class MustWrite:
                 t, v = [x for x in verdicts if x[1][0] is None][0]
                 unknown_blocks[c.bb] = "callee %s undecided: %s" % (t.name, "; ".join(v[1][:2]))
         # paths entry -> return that avoid completing a write call
-        blocked_edges = set(degenerate_edges(fn, sym, self.prog))
+        opaque_edges = set()
+        blocked_edges = set(degenerate_edges(fn, sym, self.prog, opaque_edges))
         for b in write_blocks:
             for s_ in fn.succ[b]:
                 blocked_edges.add((b, s_))
@@ -302,6 +386,15 @@ class MustWrite:
         path = find_path_consistent(fn, 0, rets, blocked=err_blocks, blocked_edges=blocked_edges)
         if path is None:
             return (True, [])
+        if any((path[i], path[i + 1]) in opaque_edges for i in range(len(path) - 1)):
+            # the path leaves through a test of a helper's Option / Result outcome that could
+            # not be analysed: whether that is the zero-size exit is not decided
+            p3 = find_path_consistent(fn, 0, rets, blocked=err_blocks,
+                                      blocked_edges=blocked_edges | opaque_edges)
+            if p3 is None:
+                return (None, ["a path without a writer call leaves through the outcome of a "
+                               "helper that is not analysed (%s)" % self._describe(fn, path)])
+            path = p3
         # a callee that does not always write is not a write event, but it is the place to
         # look: name the innermost such callee on the offending path as the root cause
         on_path_unknown = [unknown_blocks[b] for b in path if b in unknown_blocks]
